@@ -224,9 +224,27 @@ func floorDiv(a, b int) int {
 	return q
 }
 
+// how the implementation welds: the rounding that decides which vertices become one, and whether the
+// interpolation parameter is kept away from the corners
+type weldScheme struct {
+	cells   bool // bucket = round(position in cells * 10^dec) instead of position in world units
+	dec     int
+	tMargin float64 // crossing parameter clamped to [tMargin, 1-tMargin]
+}
+
+var schemeUnits3 = weldScheme{cells: false, dec: 3}
+var schemeCells4 = weldScheme{cells: true, dec: 4, tMargin: 1e-3}
+
+func (w weldScheme) key(posUnits vector3.Float64, cpu float64) modeling.VectorInt {
+	if w.cells {
+		return modeling.Vector3ToInt(posUnits.Scale(cpu), w.dec)
+	}
+	return modeling.Vector3ToInt(posUnits, w.dec)
+}
+
 // crossing point of the grid edge p -> p+axis exactly as marchFloat1BlockPosition computes it when the
-// cell `cell` (one of the four around the edge) interpolates from corner `from` to the other corner
-func crossingVariant(p ipt, axis int, cell ipt, reverse bool, va, vb, cutoff, cpu float64) (vector3.Float64, float64) {
+// cell `cell` (one of the four around the edge) interpolates from p to p+axis (or the reverse)
+func crossingVariant(p ipt, axis int, cell ipt, reverse bool, va, vb, cutoff, cpu float64, w weldScheme) (vector3.Float64, float64) {
 	blk := ipt{floorDiv(cell[0], blockSize), floorDiv(cell[1], blockSize), floorDiv(cell[2], blockSize)}
 	var a, b [3]float64
 	for k := 0; k < 3; k++ {
@@ -239,6 +257,9 @@ func crossingVariant(p ipt, axis int, cell ipt, reverse bool, va, vb, cutoff, cp
 		va, vb = vb, va
 	}
 	t := (cutoff - va) / (vb - va)
+	if w.tMargin > 0 {
+		t = math.Min(math.Max(t, w.tMargin), 1-w.tMargin)
+	}
 	var q [3]float64
 	for k := 0; k < 3; k++ {
 		q[k] = (b[k]-a[k])*t + a[k]
@@ -425,140 +446,171 @@ func evalCase(d Desc) outcome {
 		}
 	}
 
-	// output vertices -> weld buckets
-	bucketID := map[modeling.VectorInt]int{}
-	vb := make([]int, len(ps))
-	dupBucket := 0
-	for i, v := range ps {
-		k := modeling.Vector3ToInt(v, 3)
-		if _, ok := bucketID[k]; ok {
-			dupBucket++
-			// two output vertices in one bucket: the Coq side sees the repeated id (prop_ok fails)
-			vb[i] = bucketID[k]
-			continue
-		}
-		bucketID[k] = len(bucketID)
-		vb[i] = bucketID[k]
+	// The bucket analysis is done under the weld scheme of the code as it is (positions in world units rounded to
+	// 3 decimals) and, if the output does not fit that, under the scheme of the proposed repair
+	// fixes/C09-weld-in-cell-units.patch (crossing parameter kept 1e-3 away from the corners, weld in cell units
+	// at the 4 decimals of LookupOrAdd).
+	type analysis struct {
+		vb        []int
+		edges     []*edgeInfo
+		byBucket  map[int][]*edgeInfo
+		skip      bool
+		offEdge   int
+		dupBucket int
+		fails     []string
+		stats     map[string]int
 	}
-	nVertexBuckets := len(bucketID)
-	_ = nVertexBuckets
+	analyse := func(sch weldScheme) *analysis {
+		an := &analysis{stats: map[string]int{}}
+		// output vertices -> weld buckets
+		bucketID := map[modeling.VectorInt]int{}
+		vb := make([]int, len(ps))
+		dupBucket := 0
+		for i, v := range ps {
+			k := sch.key(v, d.Cpu)
+			if _, ok := bucketID[k]; ok {
+				dupBucket++
+				// two output vertices in one bucket: the Coq side sees the repeated id (prop_ok fails)
+				vb[i] = bucketID[k]
+				continue
+			}
+			bucketID[k] = len(bucketID)
+			vb[i] = bucketID[k]
+		}
+		nVertexBuckets := len(bucketID)
+		_ = nVertexBuckets
 
-	// crossed grid edges
-	edges := []*edgeInfo{}
-	cornerKeys := map[ipt]map[modeling.VectorInt]bool{} // near-corner crossings per lattice point
-	ambiguous := 0
-	for z := g.lo[2]; z <= g.hi[2]; z++ {
-		for y := g.lo[1]; y <= g.hi[1]; y++ {
-			for x := g.lo[0]; x <= g.hi[0]; x++ {
-				p := ipt{x, y, z}
-				for axis := 0; axis < 3; axis++ {
-					q := p
-					q[axis]++
-					if !g.in(q) || sign(p) == sign(q) {
-						continue
-					}
-					va, vbv := g.at(p), g.at(q)
-					e := &edgeInfo{p: p, axis: axis}
-					u, w := (axis+1)%3, (axis+2)%3
-					seen := map[modeling.VectorInt]bool{}
-					for du := 0; du <= 1; du++ {
-						for dw := 0; dw <= 1; dw++ {
-							cell := p
-							cell[u] -= du
-							cell[w] -= dw
-							for _, rev := range []bool{false, true} {
-								pos, t := crossingVariant(p, axis, cell, rev, va, vbv, d.Cutoff, d.Cpu)
-								if du == 0 && dw == 0 && !rev {
-									e.pos, e.t = pos, t
-								}
-								k := modeling.Vector3ToInt(pos, 3)
-								if !seen[k] {
-									seen[k] = true
-									e.keys = append(e.keys, k)
+		// crossed grid edges
+		edges := []*edgeInfo{}
+		cornerKeys := map[ipt]map[modeling.VectorInt]bool{} // near-corner crossings per lattice point
+		ambiguous := 0
+		for z := g.lo[2]; z <= g.hi[2]; z++ {
+			for y := g.lo[1]; y <= g.hi[1]; y++ {
+				for x := g.lo[0]; x <= g.hi[0]; x++ {
+					p := ipt{x, y, z}
+					for axis := 0; axis < 3; axis++ {
+						q := p
+						q[axis]++
+						if !g.in(q) || sign(p) == sign(q) {
+							continue
+						}
+						va, vbv := g.at(p), g.at(q)
+						e := &edgeInfo{p: p, axis: axis}
+						u, w := (axis+1)%3, (axis+2)%3
+						seen := map[modeling.VectorInt]bool{}
+						for du := 0; du <= 1; du++ {
+							for dw := 0; dw <= 1; dw++ {
+								cell := p
+								cell[u] -= du
+								cell[w] -= dw
+								for _, rev := range []bool{false, true} {
+									pos, t := crossingVariant(p, axis, cell, rev, va, vbv, d.Cutoff, d.Cpu, sch)
+									if du == 0 && dw == 0 && !rev {
+										e.pos, e.t = pos, t
+									}
+									k := sch.key(pos, d.Cpu)
+									if !seen[k] {
+										seen[k] = true
+										e.keys = append(e.keys, k)
+									}
 								}
 							}
 						}
-					}
-					if !(e.t >= 0 && e.t <= 1) {
-						fails = append(fails, fmt.Sprintf("crossing parameter %g outside [0,1] on edge %v axis %d", e.t, p, axis))
-					}
-					edges = append(edges, e)
-					const near = 2e-4
-					if e.t > 0 && e.t < near {
-						if cornerKeys[p] == nil {
-							cornerKeys[p] = map[modeling.VectorInt]bool{}
+						if !(e.t >= 0 && e.t <= 1) {
+							an.fails = append(an.fails, fmt.Sprintf("crossing parameter %g outside [0,1] on edge %v axis %d", e.t, p, axis))
 						}
-						cornerKeys[p][e.keys[0]] = true
-					}
-					if e.t < 1 && e.t > 1-near {
-						if cornerKeys[q] == nil {
-							cornerKeys[q] = map[modeling.VectorInt]bool{}
+						edges = append(edges, e)
+						const near = 2e-4
+						if e.t > 0 && e.t < near {
+							if cornerKeys[p] == nil {
+								cornerKeys[p] = map[modeling.VectorInt]bool{}
+							}
+							cornerKeys[p][e.keys[0]] = true
 						}
-						cornerKeys[q][e.keys[0]] = true
+						if e.t < 1 && e.t > 1-near {
+							if cornerKeys[q] == nil {
+								cornerKeys[q] = map[modeling.VectorInt]bool{}
+							}
+							cornerKeys[q][e.keys[0]] = true
+						}
 					}
 				}
 			}
 		}
-	}
-	skip := false
-	for _, ks := range cornerKeys {
-		if len(ks) > 1 {
-			skip = true
-			out.Stats["skip:inblock-dedupe-vs-final-bucket"]++
-			break
-		}
-	}
-	for _, e := range edges {
-		chosen := -1
-		if len(e.keys) > 1 {
-			present := 0
-			for i, k := range e.keys {
-				if _, ok := bucketID[k]; ok {
-					present++
-					chosen = i
-				}
+		skip := false
+		for _, ks := range cornerKeys {
+			if len(ks) > 1 {
+				skip = true
+				an.stats["skip:inblock-dedupe-vs-final-bucket"]++
+				break
 			}
-			if present != 1 {
-				ambiguous++
+		}
+		for _, e := range edges {
+			chosen := -1
+			if len(e.keys) > 1 {
+				present := 0
+				for i, k := range e.keys {
+					if _, ok := bucketID[k]; ok {
+						present++
+						chosen = i
+					}
+				}
+				if present != 1 {
+					ambiguous++
+					chosen = 0
+				}
+			} else {
 				chosen = 0
 			}
-		} else {
-			chosen = 0
+			k := e.keys[chosen]
+			id, ok := bucketID[k]
+			if !ok {
+				id = len(bucketID)
+				bucketID[k] = id
+			}
+			e.bucket = id
 		}
-		k := e.keys[chosen]
-		id, ok := bucketID[k]
-		if !ok {
-			id = len(bucketID)
-			bucketID[k] = id
+		if ambiguous > 0 {
+			skip = true
+			an.stats["skip:crossing-on-bucket-boundary"]++
 		}
-		e.bucket = id
-	}
-	if ambiguous > 0 {
-		skip = true
-		out.Stats["skip:crossing-on-bucket-boundary"]++
-	}
 
-	// every output vertex coincides with the crossing point of an edge of its bucket
-	byBucket := map[int][]*edgeInfo{}
-	for _, e := range edges {
-		byBucket[e.bucket] = append(byBucket[e.bucket], e)
-	}
-	for _, es := range byBucket {
-		if len(es) > 1 {
-			out.Stats["merged-buckets"]++
+		// every output vertex coincides with the crossing point of an edge of its bucket
+		byBucket := map[int][]*edgeInfo{}
+		for _, e := range edges {
+			byBucket[e.bucket] = append(byBucket[e.bucket], e)
 		}
-	}
-	offEdge := 0
-	for i, v := range ps {
-		best := math.Inf(1)
-		for _, e := range byBucket[vb[i]] {
-			if dd := v.Distance(e.pos); dd < best {
-				best = dd
+		for _, es := range byBucket {
+			if len(es) > 1 {
+				an.stats["merged-buckets"]++
 			}
 		}
-		if best > 1e-9 {
-			offEdge++
+		offEdge := 0
+		for i, v := range ps {
+			best := math.Inf(1)
+			for _, e := range byBucket[vb[i]] {
+				if dd := v.Distance(e.pos); dd < best {
+					best = dd
+				}
+			}
+			if best > 1e-9 {
+				offEdge++
+			}
 		}
+		an.vb, an.edges, an.byBucket, an.skip, an.offEdge, an.dupBucket = vb, edges, byBucket, skip, offEdge, dupBucket
+		return an
+	}
+	an := analyse(schemeUnits3)
+	if an.offEdge > 0 || an.dupBucket > 0 {
+		if an2 := analyse(schemeCells4); an2.offEdge == 0 && an2.dupBucket == 0 {
+			an = an2
+			out.Stats["weld-scheme:cells-4-decimals"]++
+		}
+	}
+	vb, edges, byBucket, skip, offEdge, dupBucket := an.vb, an.edges, an.byBucket, an.skip, an.offEdge, an.dupBucket
+	fails = append(fails, an.fails...)
+	for k, v := range an.stats {
+		out.Stats[k] += v
 	}
 	if offEdge > 0 && !skip {
 		fails = append(fails, fmt.Sprintf("%d output vertices are not the crossing point of a grid edge with a sign change", offEdge))
@@ -889,7 +941,7 @@ func genHiRes(r *hx.Rng) Desc {
 }
 
 // ---------------------------------------------------------------- main
-const maxGridPoints = 30000   // lattice points of the box handed to Coq
+const maxGridPoints = 30000    // lattice points of the box handed to Coq
 const maxDensePoints = 6000000 // lattice points the harness samples densely
 
 func key(d Desc) string { b, _ := json.Marshal(d); return string(b) }
@@ -982,7 +1034,7 @@ func record(run *hx.Run, j *job) {
 	}
 	run.Add(c)
 	for k, v := range o.Stats {
-		if strings.HasPrefix(k, "skip:") || k == "two-vertices-one-bucket" {
+		if strings.HasPrefix(k, "skip:") || strings.HasPrefix(k, "weld-scheme:") || k == "two-vertices-one-bucket" {
 			run.Dist[k] += v
 		}
 	}
@@ -1101,7 +1153,7 @@ func main() {
 
 	nBig := 2
 	if run.Tier == "thorough" {
-		nBig = 30
+		nBig = 16
 	}
 	for i := 0; i < run.N; i++ {
 		switch {
